@@ -22,7 +22,8 @@ from kv import canon, clock, coqio as cq, fakeapi as fa, framework as fw, vloop
 
 RULE_FN = ('function level: bounded-exhaustive product patch shape {body, status, both, fns only, all} x status subresource {yes,no} x '
            'fault plan {none; request i in 0..3 answered 404/422/409/200-with-empty-body} x foreign write {none; before request '
-           '0..3: edit / delete / delete-and-recreate} x fns {block, allow, idempotent list edit, status edit, block+status, '
+           '0..3: annotation edit / finalizer added / finalizer removed / delete / delete-and-recreate} on objects carrying foreign '
+           'finalizers around kopf\'s own x fns {block, allow, idempotent list edit, status edit, block+status, '
            'list+status, raising}; non-trivial iff >= 2 requests were sent or a fault/foreign write took effect; distinct by '
            '(shape, subresource, observed request kinds, statuses, outcome)')
 
@@ -107,8 +108,14 @@ SHAPES: dict[str, tuple[dict, bool]] = {   # merge-patch content, has fns
 }
 
 
-def initial_object(fns: list[str], deleting: bool = False, touched: bool = False) -> dict:
-    fins = ['other'] + ([FIN] if 'allow' in fns else [])
+FOREIGN_FINS = ['other', 'other2']      # finalizers of other controllers, around kopf's own: [other, kopf, other2]
+FOREIGN_ADDED = 'other3'
+
+
+def initial_object(fns: list[str], deleting: bool = False, touched: bool = False, no_fins: bool = False) -> dict:
+    fins = [FOREIGN_FINS[0]] + ([FIN] if 'allow' in fns else []) + [FOREIGN_FINS[1]]
+    if no_fins:
+        fins = [FIN] if 'allow' in fns else []
     if deleting:
         fins = [FIN]
     o: dict[str, Any] = {'spec': {'a': 1, 'items': ['i0']},
@@ -124,7 +131,7 @@ def initial_object(fns: list[str], deleting: bool = False, touched: bool = False
 # ---------------------------------------------------------------------------------------------
 
 class Exchange:
-    __slots__ = ('method', 'url', 'kind', 'ctype', 'payload', 'status', 'body', 'before', 'after', 'slipped', 'injected')
+    __slots__ = ('method', 'url', 'kind', 'ctype', 'payload', 'status', 'body', 'before', 'after', 'slipped', 'injected', 'slip_changed')
 
     def brief(self) -> dict:
         return {'method': self.method, 'url': self.kind, 'ctype': self.ctype, 'payload': self.payload, 'status': self.status,
@@ -148,6 +155,14 @@ class ScriptedSession:
         api, kind = self.api, self.kind
         if how == 'edit':
             api.edit(kind, NS, NAME, lambda b: b['metadata'].setdefault('annotations', {}).__setitem__('foreign', f'w{api.rv}'), actor='foreign')
+        elif how == 'fin_add':       # another controller attaches its finalizer
+            api.edit(kind, NS, NAME, lambda b: b['metadata'].setdefault('finalizers', []).append(FOREIGN_ADDED), actor='foreign')
+        elif how == 'fin_remove':    # another controller releases its (the first foreign) finalizer
+            def drop(b: dict) -> None:
+                fins = b['metadata'].get('finalizers') or []
+                gone = [f for f in fins if f != FIN][:1]
+                b['metadata']['finalizers'] = [f for f in fins if f not in gone]
+            api.edit(kind, NS, NAME, drop, actor='foreign')
         elif how == 'delete':
             api.delete(kind, NS, NAME, actor='foreign', force=True)
         elif how == 'recreate':
@@ -166,9 +181,12 @@ class ScriptedSession:
         path = path[path.index('/'):] if '/' in path else path
         x.kind = 'main' if path == MAIN_PATH else 'status' if path == MAIN_PATH + '/status' else f'other:{path}'
         x.slipped = None
+        x.slip_changed = False
         if self.slip is not None and self.slip[0] == i:
+            pre = self.api.get(self.kind, NS, NAME)
             self.foreign(self.slip[1])
             x.slipped = self.slip[1]
+            x.slip_changed = self.api.get(self.kind, NS, NAME) != pre
         x.before = self.api.get(self.kind, NS, NAME)
         x.injected = None
         if self.fault is not None and self.fault[0] == i:
@@ -347,7 +365,7 @@ def run_patch_obj(env: Env, desc: dict) -> dict:
     content = copy.deepcopy(desc['patch']) if 'patch' in desc else copy.deepcopy(SHAPES[desc['shape']][0])
     kind = fa.Kind(GROUP, VERSION, 'KopfExample', PLURAL, status_subresource=sub)
     api = fa.FakeAPI([kind])
-    obj0 = api.create(kind, NS, NAME, initial_object(fn_kinds, deleting=bool(desc.get('deleting'))))
+    obj0 = api.create(kind, NS, NAME, initial_object(fn_kinds, deleting=bool(desc.get('deleting')), no_fins=bool(desc.get('no_fins'))))
     if desc.get('deleting'):
         api.delete(kind, NS, NAME, actor='user')
         obj0 = api.get(kind, NS, NAME)
@@ -399,6 +417,20 @@ def norm(o: Any) -> Any:
         if k in md and not md[k]:
             del md[k]
     return o
+
+
+def foreign_fins(obj: dict | None) -> list | None:
+    if obj is None:
+        return None
+    return [f for f in (obj.get('metadata', {}).get('finalizers') or []) if f != FIN]
+
+
+def norm_fins(x: Any) -> Any:
+    """An emptied finalizers list and an absent one are the same object to the API server."""
+    if isinstance(x, dict) and isinstance(x.get('metadata'), dict) and 'finalizers' in x['metadata'] and not x['metadata']['finalizers']:
+        x = copy.deepcopy(x)
+        del x['metadata']['finalizers']
+    return x
 
 
 def is_status_path(p: str) -> bool:
@@ -506,10 +538,41 @@ def monitor_patch_obj(ctx: fw.Ctx, o: dict) -> None:
                     if norm(exp) != norm(x.after) and norm(x.after) is not None:
                         ctx.fail('the server object after a JSON-patch batch is not the batch applied to the version it was computed from',
                                  case, {'after': x.after, 'expected': exp}, sig='json-batch-effect')
-            if x.slipped == 'edit' and x.status == 200 and not x.injected:
+                # the ops are valid for the version they test: the batch, applied to the server object it was accepted on,
+                # gives what the transformations give on that very object (main URL: everything but status when there is a
+                # subresource; /status: the status)
+                if x.before is not None and 'raise' not in fn_kinds:
+                    want = copy.deepcopy(x.before)
+                    try:
+                        for f in o['fns']:
+                            f(want)
+                        got = canon.apply6902(x.before, rest)
+                    except (TypeError, AttributeError, KeyError, ValueError, canon.PatchInvalid, canon.PatchTestFailed, IndexError):
+                        want = got = None
+                    if want is not None:
+                        if sub and x.kind == 'main':
+                            want, got = {k: v for k, v in want.items() if k != 'status'}, {k: v for k, v in got.items() if k != 'status'}
+                        elif x.kind == 'status':
+                            want, got = want.get('status'), got.get('status')
+                        if norm_fins(want) != norm_fins(got):
+                            ctx.fail('an accepted JSON-patch batch is not what the transformations yield on the version it was accepted on: '
+                                     'the ops were computed from another (stale) body than the one whose version is tested', case,
+                                     {'accepted_on': x.before, 'ops': rest, 'ops_give': got, 'transformations_give': want}, sig='ops-from-stale-body')
+            if x.slipped in ('edit', 'fin_add', 'fin_remove') and x.slip_changed and x.status == 200 and not x.injected:
                 ctx.fail('a foreign write slipped in before a JSON-patch batch and the batch was still accepted', case, x.brief(), sig='stale-accepted')
         if x.status == 200 and x.body:
             seen = x.body
+    # ---- finalizers of other controllers are never lost, duplicated or reordered by a framework write
+    if o['obj0'] is not None:
+        foreign_now = foreign_fins(o['obj0'])
+        for x in log:
+            if x.slipped:
+                foreign_now = foreign_fins(x.before)
+            if x.after is not None and not x.injected and foreign_fins(x.after) != foreign_now:
+                ctx.fail('a framework write lost, duplicated or reordered finalizers of other controllers', dict(case, request=x.brief()),
+                         {'server_before': foreign_fins(x.before), 'server_after': foreign_fins(x.after), 'foreign_writer_left': foreign_now},
+                         sig='foreign-finalizers')
+                break
     for s, d, ops in o['diffs']:
         try:
             if canon.apply6902(s, ops) != d:
@@ -548,7 +611,7 @@ def monitor_patch_obj(ctx: fw.Ctx, o: dict) -> None:
     idem = fn_kinds and all(k in ('block', 'allow', 'listedit', 'statusedit') for k in fn_kinds)
     foreign_kind = desc['slip'][1] if desc.get('slip') else None
     injected_other = any(x.injected and not (x.injected == '422' and x.ctype == CT_JSON) for x in log)
-    if idem and ok and not injected_other and foreign_kind in (None, 'edit') and not desc.get('deleting') and not desc.get('random'):
+    if idem and ok and not injected_other and foreign_kind in (None, 'edit', 'fin_add', 'fin_remove') and not desc.get('deleting') and not desc.get('random'):
         final = o['api'].get(o['kind'], NS, NAME)
         if remaining is not None:
             final = next_cycle(o, remaining)
@@ -745,7 +808,7 @@ def monitor_apply(ctx: fw.Ctx, o: dict) -> None:
 # ---------------------------------------------------------------------------------------------
 
 FAULT_PLANS: list[tuple[int, str] | None] = [None] + [(i, c) for i in range(4) for c in ('404', '422', '409', 'empty200')]
-SLIPS: list[tuple[int, str] | None] = [None] + [(i, k) for i in range(4) for k in ('edit', 'delete', 'recreate')]
+SLIPS: list[tuple[int, str] | None] = [None] + [(i, k) for i in range(4) for k in ('edit', 'fin_add', 'fin_remove', 'delete', 'recreate')]
 
 
 def patch_obj_descs() -> list[dict]:
@@ -766,6 +829,10 @@ def patch_obj_descs() -> list[dict]:
         case_desc('custom', False, None, None, None, {'patch': {'status': None}, 'fn_kinds': []}),
         case_desc('custom', True, None, (2, 'edit'), None, {'patch': {'spec': {'b': 1}, 'status': {'s': 1}}, 'fn_kinds': ['append', 'statusedit']}),
         case_desc('custom', True, None, (3, 'edit'), None, {'patch': {'spec': {'b': 1}, 'status': {'s': 1}}, 'fn_kinds': ['append', 'statusedit']}),
+        # no finalizers at all when kopf attaches its own (a whole-list `add /metadata/finalizers`), another controller attaching concurrently
+        *[case_desc('all', sub, None, (i, 'fin_add'), fnv, {'no_fins': True})
+          for sub in (False, True) for i in range(4) for fnv in ('block', 'block+status')],
+        *[case_desc('fns', sub, None, (i, 'fin_add'), 'block', {'no_fins': True}) for sub in (False, True) for i in range(2)],
         case_desc('custom', False, None, None, None, {'patch': {}, 'fn_kinds': ['allow'], 'deleting': True}),   # releases the object
         case_desc('custom', True, None, None, None, {'patch': {'status': {'s': 1}}, 'fn_kinds': ['allow'], 'deleting': True}),
     ]
@@ -789,7 +856,7 @@ def random_descs(ctx: fw.Ctx, n: int) -> list[dict]:
             content['metadata'] = {r.choice(['annotations', 'labels']): {r.choice(['a', 'b', 'keep', 'app']): r.choice(['v', 'w', None])}}
         fn_kinds = r.sample(['block', 'allow', 'listedit', 'statusedit', 'append'], r.choice([0, 0, 1, 2]))
         fault = (r.randrange(4), r.choice(['404', '422', '409', 'empty200'])) if r.random() < 0.3 else None
-        slip = (r.randrange(4), r.choice(['edit', 'edit', 'delete', 'recreate'])) if r.random() < 0.4 else None
+        slip = (r.randrange(4), r.choice(['edit', 'fin_add', 'fin_remove', 'delete', 'recreate'])) if r.random() < 0.4 else None
         out.append(case_desc('random', r.random() < 0.5, fault, slip, None, {'patch': content, 'fn_kinds': fn_kinds, 'random': True}))
     return out
 
@@ -823,6 +890,50 @@ def trace_key(o: dict) -> list:
     return [o['desc'].get('fn'), o['desc'].get('shape'), o['desc']['subresource'], o['desc'].get('fns') or o['desc'].get('fn_kinds'),
             [(x.kind, x.ctype, x.status, x.slipped, x.injected) for x in log],
             o['how'] if o['how'] != 'ok' else 'returned', type(o['val']).__name__ if o['how'] != 'ok' else [o['val'][0] is None, o['val'][-1] is None]]
+
+
+class SigFilter:
+    """A view of a Ctx that lets through only the failures whose signature is in `sigs` (used when another property
+    re-uses this layer for the part of `apply` it relies on)."""
+    def __init__(self, ctx: fw.Ctx, sigs: set[str]) -> None:
+        self._ctx, self._sigs = ctx, sigs
+
+    def fail(self, what: str, case: Any, observed: Any = None, expected: Any = None, sig: str = '') -> None:
+        if sig in self._sigs:
+            self._ctx.fail(what, case, observed, expected=expected, sig=sig)
+
+    def __getattr__(self, name: str) -> Any:
+        return getattr(self._ctx, name)
+
+
+def apply_layer(ctx: fw.Ctx, env: 'Env', seen_terms: set[str], tie: str = 'apply', sigs: set[str] | None = None) -> None:
+    """application.apply: real function vs po_apply on the enumerated (patch, fns, delays, woken, touched, fault) product."""
+    mctx: Any = ctx if sigs is None else SigFilter(ctx, sigs)
+    acases: list[fw.Case] = []
+    for desc in [d for d in corpus_descs(ctx) if d.get('fn') == 'apply'] + apply_descs():
+        o = run_apply(env, desc)
+        try:
+            c = apply_case(o)
+        except cq.Unencodable as e:
+            ctx.correspondence_break('D:apply', {'unencodable': str(e), 'case': desc})
+            continue
+        if c.term in seen_terms:
+            continue
+        seen_terms.add(c.term)
+        acases.append(c)
+        monitor_apply(mctx, o)
+        p = bool(o['content']) or bool(o['fns'])
+        d = min(desc['delays']) if desc['delays'] else None
+        ctx.count('apply_branch', ('patched' if p else 'empty') + ':' + ('no-delay' if d is None else 'zero' if d == 0 else 'negative' if d < 0
+                  else 'capped' if d > 600 else 'positive') + (':woken' if desc['woken'] else ''))
+        if o['how'] == 'ok':
+            ctx.count('apply_result', 'applied' if o['val'][0] else 'touched' if any(v is not None for v in o['touch_values']) else
+                      'slept' if o['sleeps'] else 'patched' if p else 'idle')
+        else:
+            ctx.count('apply_result', 'raised:' + type(o['val']).__name__)
+        if len(o['sess'].log) >= 2 or o['sleeps']:
+            ctx.nontriv(['apply'] + trace_key(o) + [desc['delays'], desc['woken'], desc['touched']])
+    ctx.differential(tie, HEADER, acases, shard=40)
 
 
 def differential(ctx: fw.Ctx) -> None:
@@ -869,31 +980,7 @@ def differential(ctx: fw.Ctx) -> None:
                             'requests': [[x.kind, x.ctype, x.status] for x in log], 'outcome': o['how']}, limit=2)
         ctx.differential('patch_obj', HEADER, cases, shard=40)
 
-        acases: list[fw.Case] = []
-        for desc in [d for d in corpus_descs(ctx) if d.get('fn') == 'apply'] + apply_descs():
-            o = run_apply(env, desc)
-            try:
-                c = apply_case(o)
-            except cq.Unencodable as e:
-                ctx.correspondence_break('D:apply', {'unencodable': str(e), 'case': desc})
-                continue
-            if c.term in seen_terms:
-                continue
-            seen_terms.add(c.term)
-            acases.append(c)
-            monitor_apply(ctx, o)
-            p = bool(o['content']) or bool(o['fns'])
-            d = min(desc['delays']) if desc['delays'] else None
-            ctx.count('apply_branch', ('patched' if p else 'empty') + ':' + ('no-delay' if d is None else 'zero' if d == 0 else 'negative' if d < 0
-                      else 'capped' if d > 600 else 'positive') + (':woken' if desc['woken'] else ''))
-            if o['how'] == 'ok':
-                ctx.count('apply_result', 'applied' if o['val'][0] else 'touched' if any(v is not None for v in o['touch_values']) else
-                          'slept' if o['sleeps'] else 'patched' if p else 'idle')
-            else:
-                ctx.count('apply_result', 'raised:' + type(o['val']).__name__)
-            if len(o['sess'].log) >= 2 or o['sleeps']:
-                ctx.nontriv(['apply'] + trace_key(o) + [desc['delays'], desc['woken'], desc['touched']])
-        ctx.differential('apply', HEADER, acases, shard=40)
+        apply_layer(ctx, env, seen_terms)
     finally:
         env.close()
 
